@@ -18,7 +18,8 @@ ENDS = ["shutdown:outside", "shutdown:payload", "sigint", "fail:asyncio", "fail:
 #: failures that leave accept() as something else than RuntimeError
 BASE_ENDS = ["fail:threading:SystemExit", "fail:asyncio:SystemExit", "fail:trio:UserBaseError",
              "fail:threading:GeneratorExit"]
-POPULATIONS = ["none", "sleepers", "blocked", "submitter", "shielded", "stubborn"]
+POPULATIONS = ["none", "sleepers", "blocked", "submitter", "shielded", "stubborn",
+               "cross-calls"]
 ACCEPT_DELAY = 1.0
 
 
@@ -52,6 +53,12 @@ class Scenario:
             kit.submit({"id": tag + "-trio", "flavour": "trio", "steps": [("forever", 0.4)],
                         "cleanup": ("shield", 2.0) if population == "shielded" else None})
             cleanup = 2.0 if population == "shielded" else 0.0
+        if population == "cross-calls":
+            # a trio payload that keeps calling into the asyncio loop (one direction only: calls in
+            # both directions deadlock by construction)
+            kit.submit({"id": tag + "-trio", "flavour": "trio", "steps": [
+                ("repeat-execute", {"id": tag + "-x", "flavour": "asyncio",
+                                    "steps": [("sleep", 0.05)]}, 0.05)]})
         if population == "stubborn":
             kit.submit({"id": tag + "-asyncio", "flavour": "asyncio",
                         "steps": [("stubborn", 2, 0.3)]})
@@ -205,6 +212,11 @@ class Scenario:
                     "%s:accept-does-not-start:%s" % (label, previous),
                     "runner %d (%s) did not start accepting: %r" % (index, previous, why)))
                 break
+            if not running_seen and end == "sigint" and any(
+                    e == "sigint-raised" for s, n, w, e, d in ex.log):
+                # the signal is only sent once `running` is set; the observer thread simply
+                # was not scheduled before the end
+                running_seen = [0.0]
             if not running_seen:
                 # ended before reporting running: only legitimate for a failing payload
                 if not end.startswith("fail:") or record["outcome"][0] != "raised":
@@ -260,6 +272,17 @@ class Scenario:
                     violations.append(("%s:concurrent-accept-allowed" % label,
                                        "a second runner was accepting while runner %d was "
                                        "still accepting" % index))
+                seen = [s for s, n, w, e, d in mine if e == "running-seen"]
+                called = [s for s, n, w, e, d in mine if e == "concurrent-accept-call"]
+                if called and seen and seen[0] < called[0] < ended_seq and (
+                        admitted or not raised):
+                    # called while the first runner was certainly accepting: it has to be
+                    # refused, not made to wait for its turn
+                    violations.append(("%s:concurrent-accept-not-refused" % label,
+                                       "accept() of a second runner, called while runner %d was "
+                                       "accepting, %s instead of raising RuntimeError"
+                                       % (index, "was admitted later" if admitted
+                                          else "did not return")))
                 for seq, exc in raised:
                     if seq < ended_seq and not admitted and not isinstance(exc, RuntimeError):
                         violations.append(("%s:concurrent-accept-wrong-error" % label,
@@ -297,7 +320,7 @@ def scenario_params(tier):
         if tier == "quick" and concurrent and stop_at == 0.0:
             continue
         if tier == "quick" and thread == "second" and population in (
-                "submitter", "shielded", "stubborn"):
+                "submitter", "shielded", "stubborn", "cross-calls"):
             continue
         phase = {"end": end, "thread": thread, "population": population, "stop_at": stop_at,
                  "concurrent": concurrent, "sigint_cost": 1 if tier == "quick" else 0}
